@@ -67,6 +67,9 @@ def parseFault (rpc : Rpc) : List String → Option Fault
   | ["rcall", c] => do some (.rcall (← parseRCall c))
   | ["hcall", c] => do some (.hcall (← parseHCall c))
   | ["corrupt", _, e] => parseEffect rpc e
+  -- blocks arriving at the host between its inputs and the renter's signatures: every later host
+  -- call takes the basis `V2TransactionSet` returns, so the exchange runs as without a fault
+  | ["midmine", _] => some .none
   | _ => none
 
 def fmtTrace (t : List Call) : String := ".".intercalate (t.map callName)
